@@ -931,15 +931,24 @@ func (db *DB) initDatabaseFile() error {
 	}
 	defer func() { _ = f.Close() }()
 
+	// The journaling mode was first read from the header before the journal was
+	// rolled back and the WAL was checkpointed. The rollback may have restored a
+	// different header (or emptied the file) so determine the mode again.
 	hdr, _, err := readSQLiteDatabaseHeader(f)
 	if err == io.EOF {
 		log.Printf("database file is zero length on initialization: %s", db.DatabasePath())
+		db.mode.Store(DBModeRollback)
 		return nil // no contents yet
 	} else if err != nil {
 		return fmt.Errorf("cannot read database header: %w", err)
 	}
 	db.pageSize = hdr.PageSize
 	db.pageN.Store(hdr.PageN)
+	if hdr.WriteVersion == 2 && hdr.ReadVersion == 2 {
+		db.mode.Store(DBModeWAL)
+	} else {
+		db.mode.Store(DBModeRollback)
+	}
 
 	assert(db.pageSize > 0, "page size must be greater than zero")
 
